@@ -410,10 +410,16 @@ def _odd_paths(ctx, tmp):
              ("nul-in-history-name", b"history-path = @HOME@/ka-hist\x00ory\n"),
              ("overlong-history-path", b"history-path = @HOME@/" + b"x" * 5000 + b"\n"),
              ("nul-in-currency-path", b"currency-path = @HOME@/cur\x00rency\n"),
+             ("overlong-currency-name", b"currency-path = @HOME@/" + b"c" * 300 + b"\n"),          # ENAMETOOLONG (one component > 255)
+             ("overlong-currency-path", b"currency-path = @HOME@/" + b"d/" * 2100 + b"cur\n"),      # path > PATH_MAX
+             ("currency-path-under-a-file", b"currency-path = @HOME@/.config/ka/config/sub/currency\n"),   # ENOTDIR
+             ("currency-path-loop", b"currency-path = @HOME@/loop/currency\n"),                     # ELOOP (symlink to itself)
+             ("overlong-history-name", b"history-path = @HOME@/" + b"h" * 300 + b"\n"),
              ("history-path-under-a-file", b"history-path = @HOME@/.config/ka/config/sub/hist\n")]
     for nm, cfg in cases:
         home = os.path.join(tmp, "odd-" + nm)
         os.makedirs(os.path.join(home, ".config", "ka"))
+        os.symlink("loop", os.path.join(home, "loop"))
         with open(os.path.join(home, ".config", "ka", "config"), "wb") as f:
             f.write(cfg.replace(b"@HOME@", home.encode()))
         rc, out, err = run_py(home, ["-m", "ka.cli"], stdin=b"10/4\n%q\n")
